@@ -265,3 +265,22 @@ def lifted_to_callers(model: Model, f: FunctionInfo, within=None) -> bool:
     if within is not None and not all(c.cls in within for c in callers):
         return False
     return True
+
+
+def star_segments(t: Term) -> List[Term]:
+    """``[a, b, *xs, c]`` as the groups it is made of, in order: [a, b], xs, [c]"""
+    if t[0] not in ("list", "tuple") or not any(x[0] == "star" for x in t[1]):
+        return [t]
+    out: List[Term] = []
+    run: List[Term] = []
+    for x in t[1]:
+        if x[0] == "star":
+            if run:
+                out.append(("list", tuple(run)))
+                run = []
+            out.append(x[1])
+        else:
+            run.append(x)
+    if run:
+        out.append(("list", tuple(run)))
+    return out
